@@ -14,7 +14,18 @@ empty), emptiness decided in Python directly from the respondents; subtotals are
 or none.  Surveys have zero and fractional weights, categories whose respondents all have
 weight 0 (weighted-empty but not unweighted-empty), items nobody answered, items answered
 but never selected.
+
+Derived multiple-response items ("MR insertions": elements with "derived": true carrying a
+top / bottom / before / after anchor, named after the any_selected insertion of the
+variable's view) are base elements like any other: 0..2 of them are generated per MR
+dimension, displayed in payload order, under an EXPLICIT order (where collator.py positions
+them through the separate `_derived_element_orderings` list) and under a sort by label
+(SortByValueCollator), each crossed with hide flags - an element transform under the item's
+alias / id, or a copy of the item's insertion carrying "hide": true in the transforms'
+"insertions" list - with prune and with items nobody answered.  The oracle (b) is the same:
+shown <=> not hidden and not (prune and empty).
 """
+import copy
 import json
 import random
 from fractions import Fraction
@@ -158,25 +169,103 @@ def shape_survey(rng, sv, variables):
                         a[k] = 0
 
 
+def add_mr_insertions(rng, v, n_derived):
+    """Turn `n_derived` items of the MR variable into derived items, the way zz9 delivers the
+    any_selected insertions of the variable's view: the element is flagged "derived", carries the
+    insertion's anchor in its references and is named (value.id AND name) after the insertion;
+    the insertion itself is listed in references.view.transform.insertions."""
+    n = len(v.items)
+    ks = sorted(rng.sample(range(n), min(n_derived, n)))
+    plain = [it["alias"] for k, it in enumerate(v.items) if k not in ks]
+    view = []
+    for k in ks:
+        it = v.items[k]
+        name = "%s any %d" % (v.alias, k)
+        it["derived"] = True
+        it["name"] = name
+        it["subvar_id"] = name
+        r = rng.random()
+        if r < 0.2:
+            anchor = "top"
+        elif r < 0.4:
+            anchor = "bottom"
+        elif r < 0.5:
+            anchor = None                                   # no anchor at all
+        else:
+            others = plain + [v.items[j]["alias"] for j in ks if j != k] + ["nope"]
+            anchor = {"alias": rng.choice(plain or others) if rng.random() < 0.75 else rng.choice(others),
+                      "position": rng.choice(["before", "after", "after"])}
+        if anchor is not None:
+            it["anchor"] = anchor
+        ins = {"function": "any_selected", "name": name,
+               "kwargs": {"variable": v.alias,
+                          "subvariable_ids": rng.sample(plain, min(len(plain), 2)) if plain else []}}
+        if anchor is not None:
+            ins["anchor"] = anchor
+        view.append(ins)
+    if view:
+        v.view_insertions = view
+    v.derived_idxs = ks
+
+
 def dim_transforms(rng, v, role, truth):
     """transforms dict for the dimension v contributes in `role`; records what it hides"""
     t = {}
     if role == "items":
         ids = [it["id"] for it in v.items]
         aliases = [it["alias"] for it in v.items]
-        hidden = [k for k in range(len(ids)) if rng.random() < 0.2]
+        derived = list(getattr(v, "derived_idxs", []))
+        hidden = [k for k in range(len(ids)) if rng.random() < (0.35 if k in derived else 0.2)]
+        how = {}
+        flagged = []
         if hidden:
             t["elements"] = {}
             for k in hidden:
+                if k in derived and rng.random() < 0.45:
+                    flagged.append(k)                        # hidden through its insertion, below
+                    how[k] = "insertion-flag"
+                    continue
                 key = rng.choice([str(ids[k]), aliases[k]]) if v.kind == "mr" else str(ids[k])
                 t["elements"][key] = {"hide": True}
+                how[k] = "element-transform"
             if rng.random() < 0.3:
                 k = rng.randrange(len(ids))
                 if k not in hidden:
                     t["elements"][str(ids[k])] = {"hide": rng.choice([False, None])}
-        if rng.random() < 0.3:
+            if not t["elements"]:
+                del t["elements"]
+        if derived and (flagged or rng.random() < 0.25):
+            # transforms "insertions" of an MR dimension: complete copies of the variable's
+            # insertions; the ones carrying "hide": true suppress their derived item, the others
+            # (no flag, "hide": false, a name that is no item of the dimension) change nothing
+            tins = []
+            for d in v.view_insertions:
+                k = [j for j in derived if v.items[j]["subvar_id"] == d["name"]][0]
+                c = copy.deepcopy(d)
+                if k in flagged:
+                    c["hide"] = True
+                elif rng.random() < 0.3:
+                    c["hide"] = False
+                elif rng.random() < 0.3:
+                    continue
+                tins.append(c)
+            if rng.random() < 0.3:
+                tins.append({"function": "any_selected", "name": "no such item", "anchor": "top",
+                             "kwargs": {"variable": v.alias, "subvariable_ids": []}, "hide": True})
+            rng.shuffle(tins)
+            t["insertions"] = tins
+        r = rng.random()
+        p_explicit = 0.5 if derived else 0.3
+        if r < p_explicit:
+            pool = ids if rng.random() < 0.7 or v.kind != "mr" else ids + aliases
             t["order"] = {"type": "explicit",
-                          "element_ids": rng.sample(ids, rng.randint(0, len(ids)))}
+                          "element_ids": rng.sample(pool, rng.randint(0, len(ids)))}
+        elif r < p_explicit + 0.2 and v.kind == "mr":
+            t["order"] = {"type": "label", "direction": rng.choice(["ascending", "descending"])}
+            if rng.random() < 0.4:
+                t["order"]["fixed"] = {rng.choice(["top", "bottom"]): rng.sample(ids, 1)}
+        truth["how"] = {str(k): h for k, h in how.items()}
+        truth["derived"] = derived
     else:
         valid = gen.valid_cat_ids(v)
         hidden = [k for k in range(len(valid)) if rng.random() < 0.2]
@@ -210,12 +299,18 @@ def dim_transforms(rng, v, role, truth):
     return t
 
 
+def make_mr(rng, alias, n_items):
+    v = gen.make_mr(rng, alias, n_items=n_items)
+    add_mr_insertions(rng, v, rng.choice([0, 0, 1, 1, 2, 2]))
+    return v
+
+
 def gen_case(rng, k):
     strand = rng.random() < 0.25
     if strand:
         kind = rng.choice(["cat", "cat", "mr"])
         v = (gen.make_cat(rng, "r", n_valid=rng.randint(1, 6)) if kind == "cat"
-             else gen.make_mr(rng, "r", n_items=rng.randint(1, 5)))
+             else make_mr(rng, "r", rng.randint(1, 5)))
         variables, aliases, roles = [v], ["r"], ["elements" if kind == "cat" else "items"]
     else:
         x = rng.random()
@@ -226,9 +321,9 @@ def gen_case(rng, k):
             rk = rng.choice(["cat", "cat", "mr"])
             ck = rng.choice(["cat", "cat", "mr"])
             rv = (gen.make_cat(rng, "r", n_valid=rng.randint(1, 5)) if rk == "cat"
-                  else gen.make_mr(rng, "r", n_items=rng.randint(1, 4)))
+                  else make_mr(rng, "r", rng.randint(1, 5)))
             cv = (gen.make_cat(rng, "c", n_valid=rng.randint(1, 5)) if ck == "cat"
-                  else gen.make_mr(rng, "c", n_items=rng.randint(1, 4)))
+                  else make_mr(rng, "c", rng.randint(1, 5)))
             variables, aliases = [rv, cv], ["r", "c"]
             roles = ["elements" if rk == "cat" else "items", "elements" if ck == "cat" else "items"]
     truth = [{} for _ in roles]
@@ -403,6 +498,38 @@ def run_cases(rep, cases):
             rep.dist("all-opposing-empty(subtotals pruned)")
         for m in p["models"]:
             rep.dist("order:" + str(m.order_dict.get("type", "payload")))
+        for kk, (tr, m) in enumerate(zip(case["truth"], p["models"])):
+            der = tr.get("derived")
+            if der is None:
+                continue
+            if not m.array or case["kinds"][min(kk, len(case["kinds"]) - 1)] != "mr":
+                continue
+            rep.dist("mr-dim:derived-items=%d" % len(der))
+            if not der:
+                continue
+            otype = str(m.order_dict.get("type", "payload"))
+            rep.dist("derived:order:" + otype)
+            how = tr.get("how", {})
+            gone = []
+            for i in der:
+                if how.get(str(i)) == "element-transform":
+                    rep.dist("derived:hidden-by-element-transform")
+                    rep.dist("derived:%s+hidden-by-element-transform" % otype)
+                    gone.append(i)
+                elif how.get(str(i)) == "insertion-flag":
+                    rep.dist("derived:hidden-by-insertion-flag")
+                    rep.dist("derived:%s+hidden-by-insertion-flag" % otype)
+                    gone.append(i)
+                elif tr["prune"] and i in emp[kk]:
+                    rep.dist("derived:pruned-empty")
+                    rep.dist("derived:%s+pruned-empty" % otype)
+                    gone.append(i)
+                elif i in emp[kk]:
+                    rep.dist("derived:empty-not-pruned")
+            if "insertions" in (case["transforms"].get(["rows_dimension", "columns_dimension"][kk]) or {}):
+                rep.dist("derived:transforms-insertions-list")
+            if gone and len(gone) < len(der):
+                rep.dist("derived:one-gone-one-shown")
         rep.sample({"transforms": case["transforms"], "kinds": case["kinds"], "u": case["u"]})
         for kind, what, detail in check_case(case, p, res):
             rep.violation(kind, _replayable(case), dict(detail, what=what),
@@ -423,14 +550,25 @@ def run(tier, seed):
         "categories, categories whose respondents all have weight 0, MR items nobody answered / "
         "answered but never selected / selected only by weightless respondents; prune on 65% of the "
         "dimensions (plus non-True spellings), hides by int / str / alias keys (plus hide: False/None/1), "
-        "insertions, explicit and label-sorted orders with fixed lists. non-trivial = prune with an "
-        "empty vector or an explicit hide; distinct by content hash")
+        "insertions, explicit and label-sorted orders with fixed lists; every MR dimension carries 0, 1 "
+        "or 2 DERIVED items (any_selected insertions of the view: derived flag, anchor top / bottom / "
+        "before / after an item / stale / absent, value.id = insertion name), shown in payload order, "
+        "under an explicit order (50%; ids or aliases) and under a label sort (20%), hidden (35% each) "
+        "through an element transform (alias / id key) or through a copy of their insertion carrying "
+        "hide: true in transforms.insertions (next to copies with hide: false / without flag / of no "
+        "item), pruned when nobody answered them (see the derived:* distribution keys). non-trivial = "
+        "prune with an empty vector or an explicit hide; distinct by content hash")
     rep.cov["coq_eval_seconds"] = round(coq_s, 2)
     rep.cov["model_terms_evaluated"] = n_terms
     rep.assumptions = [
         "unweighted counts are natural numbers (counts of respondents); valid-count measures not generated",
         "for array dimensions the shimmed ids / hidden set are taken from the implementation for the MODEL "
         "run (C19 owns the id translation); the ORACLE uses the generator's own record of what it hid",
+        "the translation of an MR insertion carrying hide: true into a hide flag on its derived item "
+        "(dimension.py Elements._hidden_transforms) is not modelled: the model is fed the hidden set the "
+        "implementation reports, only the ORACLE (generator's record of the flagged insertions) decides it; "
+        "conflicting instructions (insertion flagged hidden AND an element transform hide: false on the same "
+        "item) and truthy non-boolean flags are not generated",
     ]
     return rep.finish("proof", ob, trusted_base=core.TRUSTED_BASE_COMMON + [
         "Model/OrderPruning.v and Model/Collator.v are hand-written; tied to collator.py, dimension.py and the "
